@@ -33,6 +33,12 @@ def to_py(v):
         return float(v["f"]) if v.get("f") else 1.5
     if t == "range":
         return range(*v["r"])
+    if t == "iter":
+        # iterator views of a string / bytes: lists of 1-character strings or of ints
+        b = bytes.fromhex(v.get("s", ""))
+        if v["m"] in ("codepoints", "elems"):
+            return [chr(c) for c in b]
+        return list(b)
     raise ValueError(t)
 
 
@@ -231,6 +237,10 @@ def evaluate(c):
         elif name == "all":
             (a,) = args
             r = all(it(a))
+        elif name in ("list", "tuple"):
+            if len(args) > 1:
+                raise TypeError("arity")
+            r = (list if name == "list" else tuple)(it(args[0]) if args else ())
         elif name == "sorted":
             (a,) = args
             r = sorted(strict_elems(it(a)))
